@@ -170,6 +170,7 @@ class SchedRun:
         for srv in w.servers:
             srv.channel_class = make_traced_channel()
         self.conns = []
+        self.phase2 = False
         self.late = []
         self.client_state = []
         for ci, cs in enumerate(sc.get("conns", [])):
@@ -223,7 +224,7 @@ class SchedRun:
                 self.sched.block(lambda: self._has_response_progress(ci, base), "client.wait-continue")
                 st["rx_mark"] = len(c.client_rx)
             elif wt == "quiet":
-                self.sched.block(lambda: False, "client.wait-quiet")   # resumed by the controller at quiescence
+                self.sched.block(lambda: self.phase2, "client.wait-quiet")   # released by the controller at the first quiescence
             self.sched.yield_point("client.send")
             if c.closed:
                 break
@@ -286,8 +287,8 @@ class SchedRun:
                 resumed = True
         for t in self.sched.threads:
             if t.state == "blocked" and t.what == "client.wait-quiet":
-                t.pred = lambda: True
                 resumed = True
+        self.phase2 = True
         if resumed:
             reason = self.sched.run()
         return reason
